@@ -31,6 +31,7 @@ Explain(e) ==
      [] e.ev = "Mac" -> ExplainMac(e)
      [] e.ev = "Tables" -> ExplainTables(e)
      [] e.ev = "SBox32" -> ExplainSBox32(e)
+     [] e.ev = "Held" -> HeldVerdict(e)
      [] OTHER -> No("no action of the specification matches this event")
 
 Init == l = 1 /\ bad = 0
